@@ -161,6 +161,30 @@ class T(ast.NodeTransformer):
         n.ifs = [self._t(i) for i in n.ifs]
         return n
 
+    def visit_Dict(self, n):
+        self.generic_visit(n)
+        if all(isinstance(k, ast.Constant) for k in n.keys if k is not None):
+            return n
+        if any(k is None for k in n.keys):
+            return n          # {**a, k: v}: left to python (keys of a spread mapping are already de-duplicated)
+        pairs = ast.List([ast.Tuple([k, v], ast.Load()) for k, v in zip(n.keys, n.values)], ast.Load())
+        return ast.Call(_sx('mk_dict'), [pairs], [])
+
+    def visit_DictComp(self, n):
+        self.generic_visit(n)
+        lc = ast.ListComp(ast.Tuple([n.key, n.value], ast.Load()), n.generators)
+        return ast.Call(_sx('mk_dict'), [lc], [])
+
+    def visit_SetComp(self, n):
+        self.generic_visit(n)
+        return ast.Call(_sx('mk_set'), [ast.ListComp(n.elt, n.generators)], [])
+
+    def visit_Set(self, n):
+        self.generic_visit(n)
+        if all(isinstance(e, ast.Constant) for e in n.elts):
+            return n
+        return ast.Call(_sx('mk_set'), [ast.List(n.elts, ast.Load())], [])
+
     def visit_Starred(self, n):
         self.generic_visit(n)
         if isinstance(n.ctx, ast.Load):
